@@ -673,7 +673,7 @@ def jobs(tier):
         if not (q and lab in SLOW_CLOSED):
             out.append({"name": f"closed/{lab}/n2K2", "target": "checks.c13:job_closed", "kwargs": dict(label=lab, n=2, Kc=2), "timeout": 240 if q else 2400})
         if not q:
-            out.append({"name": f"closed/{lab}/n2K3", "target": "checks.c13:job_closed", "kwargs": dict(label=lab, n=2, Kc=3, max_paths=6000), "timeout": 3000})
+            out.append({"name": f"closed/{lab}/n2K3", "target": "checks.c13:job_closed", "kwargs": dict(label=lab, n=2, Kc=3, max_paths=6000), "timeout": 1200 if lab.startswith("MMD") else 3000})   # MMD: the soft deadline ends the exploration (reported as unknown)
         out.append({"name": f"empty-last/{lab}/n2K2", "target": "checks.c13:job_empty", "kwargs": dict(label=lab, n=2, Kc=2), "timeout": 240 if q else 1200})
         out.append({"name": f"empty-first/{lab}/n2K2", "target": "checks.c13:job_empty", "kwargs": dict(label=lab, n=2, Kc=2, position="first"), "timeout": 240 if q else 1200})
     for lab in labs:
